@@ -216,7 +216,15 @@ impl<CS: BbsCiphersuite> Signature<BBSplus<CS>> {
         update_index: usize,
         n: usize,
     ) -> Result<Self, Error> {
-        let generators = Generators::create::<CS>(n + 1, Some(CS::API_ID));
+        if update_index >= n {
+            return Err(Error::UpdateSignatureError(
+                "update_index >= n".to_owned(),
+            ));
+        }
+        let count = n
+            .checked_add(1)
+            .ok_or_else(|| Error::UpdateSignatureError("n out of range".to_owned()))?;
+        let generators = Generators::create::<CS>(count, Some(CS::API_ID));
 
         if generators.values.len() <= update_index + 1 {
             return Err(Error::UpdateSignatureError(
